@@ -260,7 +260,7 @@ theorem reduce3_kept_partial (s s' : Vs3 K) (p : V3 K) (hok : Vs3Ok s) (hd : s.d
     (s'.dim = 0 ∧ s'.p0 = 1 ∧ p = s'.v0.point ∧ Live3 s s'.v0) ∨
     (s'.dim = 1 ∧ 0 ≤ s'.p0 ∧ 0 ≤ s'.p1 ∧ s'.p0 + s'.p1 = 1 ∧ p = (s'.v0.point.smul s'.p0).add (s'.v1.point.smul s'.p1)
         ∧ Live3 s s'.v0 ∧ Live3 s s'.v1) ∨
-    (s'.dim = 2 ∧ 0 ≤ s'.p0 ∧ 0 ≤ s'.p1 ∧ 0 ≤ s'.p2 ∧ s'.p0 + s'.p1 + s'.p2 = 1 ∧
+    (s'.dim = 2 ∧ s.dim = 2 ∧ 0 ≤ s'.p0 ∧ 0 ≤ s'.p1 ∧ 0 ≤ s'.p2 ∧ s'.p0 + s'.p1 + s'.p2 = 1 ∧
         p = ((s'.v0.point.smul s'.p0).add (s'.v1.point.smul s'.p1)).add (s'.v2.point.smul s'.p2) ∧
         s'.v0 = s.v0 ∧ s'.v1 = s.v1 ∧ s'.v2 = s.v2) := by
   letI := fieldNum K sq
@@ -327,7 +327,7 @@ theorem reduce3_kept_partial (s s' : Vs3 K) (p : V3 K) (hok : Vs3Ok s) (hd : s.d
       dsimp only at hl hc h
       simp only [Option.some.injEq, Prod.mk.injEq] at h
       obtain ⟨rfl, rfl⟩ := h
-      exact Or.inr (Or.inr ⟨h2, hc.1, hc.2.1, hc.2.2, hl.2.1, hl.2.2, rfl, rfl, rfl⟩)
+      exact Or.inr (Or.inr ⟨h2, h2, hc.1, hc.2.1, hc.2.2, hl.2.1, hl.2.2, rfl, rfl, rfl⟩)
     | solid => exact absurd hc (by simp)
   · omega
 
@@ -368,6 +368,33 @@ theorem result2_gap (s s' : Vs2 K) (p : V2 K) (hok : Vs2Ok s)
     rw [r1, r2, e, c0, c1]
     apply C05.v2_ext <;> simp only [V2.add, V2.smul, V2.sub] <;> ring
   · omega
+
+
+/-- **barycentric reconstruction (3-D, simplex of dimension ≤ 2 before the reduction)**: `result(simplex, false)` is the convex
+combination `Σ proj[i]·orig1[i]`, `Σ proj[i]·orig2[i]` with the weights of `reduce3_kept_partial`, and `w1 - w2 = p`. -/
+theorem result3_gap_partial (s s' : Vs3 K) (p : V3 K) (hok : Vs3Ok s) (hd : s.dim ≤ 2)
+    (hc : ∀ c, Live3 s c → letI := fieldNum K sq; c.point = c.orig1.sub c.orig2) :
+    letI := fieldNum K sq
+    s.projectOriginAndReduce = some (s', p) → (s'.result false).1.sub (s'.result false).2 = p := by
+  letI := fieldNum K sq
+  intro h
+  rcases reduce3_kept_partial sq s s' p hok hd h with ⟨d, hp0, e, l0⟩ | ⟨d, h0, h1, hs, e, l0, l1⟩ | ⟨d, hd2, h0, h1, h2, hs, e, e0, e1, e2⟩
+  · have c0 := hc _ l0
+    rw [e, c0]
+    simp only [Vs3.result, Vs3.result.go, d, Vs3.get, Vs3.getProj, hp0]
+    apply C05.v3_ext <;> simp [Vs3.result.go, Vs3.get, Vs3.getProj, V3.add, V3.smul, V3.sub, V3.zero]
+  · have c0 := hc _ l0
+    have c1 := hc _ l1
+    rw [e, c0, c1]
+    simp only [Vs3.result, Vs3.result.go, d, Vs3.get, Vs3.getProj]
+    apply C05.v3_ext <;> simp [Vs3.result.go, Vs3.get, Vs3.getProj, V3.add, V3.smul, V3.sub, V3.zero] <;> ring
+  ·
+    have c0 := hc s'.v0 (by rw [e0]; exact Or.inl rfl)
+    have c1 := hc s'.v1 (by rw [e1]; exact Or.inr (Or.inl ⟨by omega, rfl⟩))
+    have c2 := hc s'.v2 (by rw [e2]; exact Or.inr (Or.inr ⟨by omega, rfl⟩))
+    rw [e, c0, c1, c2]
+    simp only [Vs3.result, Vs3.result.go, d, Vs3.get, Vs3.getProj]
+    apply C05.v3_ext <;> simp [Vs3.result.go, Vs3.get, Vs3.getProj, V3.add, V3.smul, V3.sub, V3.zero] <;> ring
 
 /-! ## the bounds `gjk::closest_points` exits on -/
 
@@ -874,6 +901,98 @@ theorem distanceSmSmWithParams2_spec (hs : LawfulSqrt sq) (fs : V2 K → CSO2 K)
     · rw [← h.1]; exact hs.nonneg _ (by simp only [V2.normSq, V2.dot]; nlinarith [mul_self_nonneg (p1.sub p2).x, mul_self_nonneg (p1.sub p2).y])
     · rw [← h.1]; exact hs.sq_mul _ (by simp only [V2.normSq, V2.dot]; nlinarith [mul_self_nonneg (p1.sub p2).x, mul_self_nonneg (p1.sub p2).y])
   · exact Or.inr (Or.inr ⟨d, rfl, h.1.symm⟩)
+
+
+/-- **which exits return `Intersection`** (3-D loop body): (a) the projection of the origin on the simplex is within `ε_tol` of the
+origin (`try_new_and_get(-proj, ε_tol)` fails), or (b) after adding the support point the reduction kept a full simplex
+(`dimension() == DIM`) while `min_bound < ε_tol`. -/
+theorem gjkBody3_intersection_cases {K : Type} [Num K] (fs : V3 K → CSO3 K) (maxDist : Option K) (exact : Bool) (s s' : Vs3 K)
+    (proj oldDir : V3 K) (maxBound : Option K) :
+    gjkBody3 fs maxDist exact s proj oldDir maxBound = .exit .intersection s' →
+    (tryNewAndGet3 proj.neg epsTol = none ∧ s' = s) ∨
+    ∃ dir mb s1 pr, tryNewAndGet3 proj.neg epsTol = some (dir, mb) ∧ s.addPoint (fs dir) = some (s1, true) ∧
+      s1.projectOriginAndReduce = some (s', pr) ∧ s'.dim = 3 ∧ ¬ epsTol ≤ -(dir.dot (fs dir).point) := by
+  intro h
+  unfold gjkBody3 at h
+  rcases ht : tryNewAndGet3 proj.neg epsTol with _ | ⟨dir, mb⟩
+  · rw [ht] at h
+    simp only [GjkStep3.exit.injEq, true_and] at h
+    exact Or.inl ⟨rfl, h.symm⟩
+  · rw [ht] at h
+    refine Or.inr ⟨dir, mb, ?_⟩
+    dsimp only at h
+    split_ifs at h with c1 c2 c3 c4 c5 c6
+    all_goals try (simp only [GjkStep3.exit.injEq, reduceCtorEq, false_and] at h; done)
+    all_goals
+      rcases ha : s.addPoint (fs dir) with _ | ⟨s1, b⟩
+      · rw [ha] at h; simp at h
+      · rw [ha] at h
+        cases b with
+        | false => simp at h
+        | true =>
+          dsimp only at h
+          rcases hp : s1.projectOriginAndReduce with _ | ⟨s2, pr⟩
+          · rw [hp] at h; simp at h
+          · rw [hp] at h
+            dsimp only at h
+            split_ifs at h with d1
+            all_goals try (simp only [GjkStep3.exit.injEq, reduceCtorEq, false_and] at h; done)
+            all_goals (simp only [GjkStep3.exit.injEq, true_and] at h; subst h; exact ⟨s1, pr, rfl, rfl, hp, d1, by assumption⟩)
+
+/-- **which exits return `Intersection`** (2-D loop body): (a) the projection of the origin on the simplex is within `ε_tol` of the
+origin (`try_new_and_get(-proj, ε_tol)` fails), or (b) after adding the support point the reduction kept a full simplex
+(`dimension() == DIM`) while `min_bound < ε_tol`. -/
+theorem gjkBody2_intersection_cases {K : Type} [Num K] (fs : V2 K → CSO2 K) (maxDist : Option K) (exact : Bool) (s s' : Vs2 K)
+    (proj oldDir : V2 K) (maxBound : Option K) :
+    gjkBody2 fs maxDist exact s proj oldDir maxBound = .exit .intersection s' →
+    (tryNewAndGet2 proj.neg epsTol = none ∧ s' = s) ∨
+    ∃ dir mb s1 pr, tryNewAndGet2 proj.neg epsTol = some (dir, mb) ∧ s.addPoint (fs dir) = some (s1, true) ∧
+      s1.projectOriginAndReduce = some (s', pr) ∧ s'.dim = 2 ∧ ¬ epsTol ≤ -(dir.dot (fs dir).point) := by
+  intro h
+  unfold gjkBody2 at h
+  rcases ht : tryNewAndGet2 proj.neg epsTol with _ | ⟨dir, mb⟩
+  · rw [ht] at h
+    simp only [GjkStep2.exit.injEq, true_and] at h
+    exact Or.inl ⟨rfl, h.symm⟩
+  · rw [ht] at h
+    refine Or.inr ⟨dir, mb, ?_⟩
+    dsimp only at h
+    split_ifs at h with c1 c2 c3 c4 c5 c6
+    all_goals try (simp only [GjkStep2.exit.injEq, reduceCtorEq, false_and] at h; done)
+    all_goals
+      rcases ha : s.addPoint (fs dir) with _ | ⟨s1, b⟩
+      · rw [ha] at h; simp at h
+      · rw [ha] at h
+        cases b with
+        | false => simp at h
+        | true =>
+          dsimp only at h
+          rcases hp : s1.projectOriginAndReduce with _ | ⟨s2, pr⟩
+          · rw [hp] at h; simp at h
+          · rw [hp] at h
+            dsimp only at h
+            split_ifs at h with d1
+            all_goals try (simp only [GjkStep2.exit.injEq, reduceCtorEq, false_and] at h; done)
+            all_goals (simp only [GjkStep2.exit.injEq, true_and] at h; subst h; exact ⟨s1, pr, rfl, rfl, hp, d1, by assumption⟩)
+
+/-- **exit `Intersection` through a full simplex is a genuine overlap (2-D)**: if the reduction keeps a (non-degenerate) triangle,
+the origin lies in that triangle, i.e. in the hull of three points of the obstacle — the shapes share a point — and the returned
+projection is the origin itself. (3-D: the analogous statement needs the tetrahedron case of `reduce3_*`, not proved.) -/
+theorem gjk_full_simplex_contains_origin2 (s1 s2 : Vs2 K) (pr : V2 K) (hok : Vs2Ok s1) :
+    letI := fieldNum K sq
+    s1.projectOriginAndReduce = some (s2, pr) → s2.dim = 2 →
+    pr = V2.zero ∧ (Triangle2.mk s2.v0.point s2.v1.point s2.v2.point).Mem V2.zero := by
+  letI := fieldNum K sq
+  intro h hd
+  rcases reduce2_kept sq s1 s2 pr hok h with ⟨d, _⟩ | ⟨d, _⟩ | ⟨_, hss, e⟩
+  · omega
+  · omega
+  · refine ⟨e, ?_⟩
+    have hm := reduce2_kept_contains sq s1 s2 pr hok h
+    rcases hm with ⟨d0, _⟩ | ⟨d1, _⟩ | ⟨_, hm⟩
+    · omega
+    · omega
+    · rw [e] at hm; exact hm
 
 /-! ## non-vacuity of the hypotheses -/
 
